@@ -292,6 +292,23 @@ def refused_for_size(run):
                     run.violation("C08_refused_but_applied", {"op": op, "reason": reason, "ver": ver[0] * 10 + ver[1]},
                                   {"request": req, "maximum_response_size": limit, "answer": told[0],
                                    "objects_before": len(before["objs"]), "objects_after": len(after["objs"])})
+        # a batch whose LATER item cannot be encoded in the response (KMIP 2.0 GetAttributes with nothing to report: the known
+        # finding of C13): the earlier items were executed and committed - their results must not be lost with it
+        for names in (["Activation Date"], ["Contact Information"]):
+            drv.load_snapshot(snap)
+            before = drv.state()
+            req = {"user": "alice", "groups": None, "ver": [2, 0], "opt": "Continue", "items": [
+                {"op": "Create", "bid": "b1", "p": sym}, {"op": "GetAttributes", "bid": "b2", "p": {"uid": 0, "names": names}}]}
+            data = A.encode(A.build_request(req, drv.intern, now=int(D.CLOCK.now)), A.KV((2, 0)))
+            conn = S.FakeConn(data, cert=cert)
+            S.run_session(drv.engine, conn)
+            after = drv.state()
+            n += 1
+            told = A.abs_response(A.decode_response(conn.sent[0]), drv.intern)["items"] if conn.sent else []
+            run.case(("unencodable-later-item", tuple(names), len(told), before == after))
+            if before != after and not any(t["status"] == "Success" for t in told):
+                run.violation("C08_refused_but_applied", {"op": "Create+GetAttributes", "reason": told[0]["reason"] if told else "no answer", "ver": 20},
+                              {"request": req, "answer": told, "objects_before": len(before["objs"]), "objects_after": len(after["objs"])})
     finally:
         drv.close()
     run.traces += n
